@@ -13,3 +13,4 @@ pub mod cache_ref;
 pub mod zonefile_printer;
 pub mod tsig_ref;
 pub mod update_ref;
+pub mod zonemodel;
